@@ -2,6 +2,7 @@ import GbVerif.Model.Cache
 import GbVerif.Model.X86Wf
 import GbVerif.Model.JitIp
 import GbVerif.Model.JitSp
+import GbVerif.Model.JitStatus
 import GbVerif.Proofs.Enum
 /-!
 C01 — translated blocks have the same architectural effect as the interpreter.
@@ -97,5 +98,28 @@ theorem sp_delta_cb : ∀ b1, b1 < 2^8 → (JitSp.jitSp (Gen.emitCb b1) == some 
 
 /-- non-vacuity: CALL NZ has the two outcomes 0 and −2, POP BC has +2 -/
 example : JitSp.jitSp (Gen.emitOp 0xc4) = some [0, 65534] ∧ JitSp.jitSp (Gen.emitOp 0xc1) = some [2] := by decide +kernel
+
+
+/-! ### the status a translated instruction returns -/
+
+def statusOkOp (b0 : Nat) : Bool :=
+  let t := Gen.emitOp b0
+  if t.isEmpty then true else
+  let (op, len, _) := Gen.decode b0 0 0
+  (JitStatus.jitStatus t).isSome && JitStatus.jitStatus t == JitStatus.interpStatus op len
+
+/-- **status_class**: over every path through the code of every instruction, the class of what the path leaves in the
+status byte r14b (normal if it leaves it alone or writes it with the zero-flag idiom) is the class of the status the
+interpreter model returns for that instruction: STOP, HALT, DI, EI/RETI set theirs, everything else — including every
+instruction that merely precedes the terminator in a block — leaves a status of class normal -/
+theorem status_class_unprefixed : ∀ b0, b0 < 2^8 → statusOkOp b0 = true :=
+  forall_lt_of_allRange statusOkOp 8 (by decide +kernel)
+
+theorem status_class_cb : ∀ b1, b1 < 2^8 → (JitStatus.jitStatus (Gen.emitCb b1) == some [0]) = true :=
+  forall_lt_of_allRange (fun b1 => JitStatus.jitStatus (Gen.emitCb b1) == some [0]) 8 (by decide +kernel)
+
+/-- non-vacuity: HALT returns class 2, RETI the EI class (the interpreter's 5 and the recompiler's 4 are one class), RLC B normal -/
+example : JitStatus.jitStatus (Gen.emitOp 0x76) = some [2] ∧ JitStatus.jitStatus (Gen.emitOp 0xd9) = some [4] ∧
+    JitStatus.interpStatus (Gen.decode 0xd9 0 0).1 1 = some [4] ∧ JitStatus.jitStatus (Gen.emitCb 0x00) = some [0] := by decide +kernel
 
 end GbVerif.C01
